@@ -71,6 +71,9 @@ def family_b(k):
         minus = ESC + "[1;35m-" + body + ESC + "[m" if not body.startswith(ESC) else "-" + body
         out.append((head + " ctx\n" + minus + "\n+" + body + "\n " + body + "\n").encode("utf-8"))
         out.append(("commit 1111111111111111111111111111111111111111\n" + body + "\n    " + body + "\n").encode("utf-8"))
+        # the same text in a line that is not valid UTF-8 (a Latin-1 byte at either end)
+        out.append(b"commit 1111111111111111111111111111111111111111\n" + body.encode("utf-8") + b" caf\xe9\n"
+                   + b"\xe9 " + body.encode("utf-8") + b"\n")
     return out
 
 
